@@ -50,7 +50,7 @@ class ParseUnit(Unit):
         return spec_parse.kani_module(prog, extra=extra)
     def kani_harnesses(self, ctx, prog):
         hs = []
-        if ctx.tier == 'thorough' and spec_parse.max_len(prog) <= 7:
+        if ctx.tier == 'thorough' and spec_parse.max_len(prog) <= 7 and 'overlap' not in prog.tags:
             hs.append(('twin_from_str', 'from_str'))
         if ctx.pid == 'C12' and prog is self._first:
             hs += [('twin_eq_ignore_ascii_case', 'eq_ignore_ascii_case'), ('twin_unicode_lookalikes', 'eq_ignore_ascii_case')]
@@ -58,7 +58,7 @@ class ParseUnit(Unit):
     def twin_of(self, ctx, prog, fn):
         return 'twin_from_str_ascii'
     def fallback_harnesses(self, ctx, prog, fns):
-        return [('twin_from_str_ascii', 'from_str')]
+        return [] if 'overlap' in prog.tags else [('twin_from_str_ascii', 'from_str')]
     def run(self, ctx):
         self._first = None
         self.kani_always = (ctx.pid == 'C12')
